@@ -61,7 +61,7 @@ public:
     QString describe() const override
     {
         return QStringLiteral("real: QXmppTransferManager (stream initiation, in-band bytestreams, size/hash verification), QXmppTransferIncomingJob/OutgoingJob, QXmppClient ; "
-                              "stub: transport, ScriptedServer relaying to a scripted IBB peer (sender with arbitrary block size and faults on the block sequence, or receiver), FaultyBuffer device ; or (15 %) a second real client with its own transfer manager reached through a faulty relay ; the SOCKS5 *receive* path (17 %) through QXmppSocksClient on a simulated TCP layer with a scripted stream host; the SOCKS5 sending side (QXmppSocksServer/QTcpServer) is not simulated");
+                              "stub: transport, ScriptedServer relaying to a scripted IBB peer (sender with arbitrary block size and faults on the block sequence, or receiver), FaultyBuffer device ; or (15 %) a second real client with its own transfer manager reached through a faulty relay ; the SOCKS5 *receive* path (14 %) through QXmppSocksClient on a simulated TCP layer with a scripted stream host ; or (13 %) two real clients with a SOCKS5 bytestream through a scripted mediating proxy (both QXmppSocksClient connections on the simulated TCP layer in buffered mode, proxy relays with faults) ; the direct SOCKS5 path to the sender's own QXmppSocksServer/QTcpServer is not simulated");
     }
 
     Plan generate(quint64 seed, const QString &tier) override
@@ -74,7 +74,7 @@ public:
         k[QStringLiteral("sm")] = r.chance(0.3) ? 1 : 0;
         k[QStringLiteral("autoAck")] = 1;
         k[QStringLiteral("autoReconnect")] = 0;
-        const int topo = r.weighted({ 50, 20, 13, 17 });   // 0: scripted sender -> real receiver, 1: real sender -> scripted receiver, 2: real sender -> real receiver through a faulty relay, 3: scripted sender -> real receiver over a SOCKS5 bytestream
+        const int topo = r.weighted({ 44, 18, 11, 14, 13 });   // 0: scripted sender -> real receiver, 1: real sender -> scripted receiver, 2: real sender -> real receiver through a faulty relay, 3: scripted sender -> real receiver over a SOCKS5 bytestream, 4: two real clients, SOCKS5 through a scripted mediating proxy
         k[QStringLiteral("topology")] = topo;
         const int drawn = r.pick(QVector<int> { 1, 2, 3, 7, 16, 64, 255, 256, 1000, 4096 });
         const int block = (topo == 1 || topo == 2) ? 4096 : drawn;
@@ -149,6 +149,12 @@ public:
 
             if (topology == 3) {
                 runSocks(plan, tr, res, w, file, md5, block, announce, (int)plan.knob(QStringLiteral("fault")), faultAt);
+                res.traceHash = tr.hash.value();
+                res.trace = tr.lines;
+                return res;
+            }
+            if (topology == 4) {
+                runSocksProxy(plan, tr, res, w, file, md5, block, announce, (int)plan.knob(QStringLiteral("fault")), faultAt);
                 res.traceHash = tr.hash.value();
                 res.trace = tr.lines;
                 return res;
@@ -952,6 +958,432 @@ public:
         wb.client->disconnectFromServer();
         wa.pump(nullptr);
         wb.pump(nullptr);
+    }
+
+    // topology 4: two real clients, SOCKS5 bytestream through a mediating proxy (XEP-0065 §6.3): the sending manager is
+    // configured with a proxy and "proxy only", both sides reach the scripted proxy through the library's QXmppSocksClient on
+    // the simulated TCP layer (buffered mode: bytesToWrite/bytesWritten behave as with a kernel socket), the proxy pairs the
+    // two connections by the SHA-1 host name, is activated by the sender and relays the byte stream with faults.
+    void runSocksProxy(const Plan &plan, Trace &tr, RunResult &res, SessionWorld &wa, const QByteArray &file, const QByteArray &md5, int chunk, int announce, int fault, int faultAt)
+    {
+        TcpNet tcp;
+        tcp.buffered = true;
+        Plan planB = plan;
+        planB.sknobs[QStringLiteral("user")] = QStringLiteral("bob");
+        planB.sknobs[QStringLiteral("resource")] = QStringLiteral("desk");
+        planB.knobs[QStringLiteral("otherJid")] = 0;
+        SessionWorld wb(planB, tr, res);
+        QObject ctx;
+        // QXmppTransferFileInfo cannot announce a size of zero (0 means "unknown")
+        if (file.isEmpty()) {
+            announce = announce == 0 ? 2 : (announce == 1 ? 3 : announce);
+        }
+        const bool sizeAnnounced = announce == 0 || announce == 1, hashAnnounced = announce == 0 || announce == 2;
+        if (fault == 4 && !hashAnnounced) {
+            fault = 0;
+        }
+        if ((fault == 1 || fault == 2 || fault == 3 || fault == 5 || fault == 11) && announce == 3) {
+            fault = 0;   // with nothing announced any byte stream that ends is "the file"
+        }
+        if ((fault == 2 || fault == 3) && !hashAnnounced) {
+            fault = 0;   // no sequence numbers in a raw byte stream
+        }
+        if (fault == 8) {
+            fault = 0;
+        }
+        if (file.isEmpty() && (fault >= 1 && fault <= 5)) {
+            fault = 0;
+        }
+        static const char *kProxy = "proxy.example";
+        wa.createClient(QXmppClient::NoExtensions);
+        wb.createClient(QXmppClient::NoExtensions);
+        auto *tmA = wa.client->addNewExtension<QXmppTransferManager>();
+        auto *tmB = wb.client->addNewExtension<QXmppTransferManager>();
+        tmA->setSupportedMethods(QXmppTransferJob::SocksMethod);
+        tmB->setSupportedMethods(QXmppTransferJob::SocksMethod);
+        tmA->setProxy(QString::fromLatin1(kProxy));
+        tmA->setProxyOnly(true);
+        FaultyBuffer sink;
+        sink.open(QIODevice::ReadWrite);
+        if (fault == 9) {
+            sink.failAt = faultAt % 3;
+        } else if (fault == 10) {
+            sink.shortAt = faultAt % 3;
+        }
+        bool inFinished = false, outFinished = false;
+        int inError = -1, outError = -1;
+        QPointer<QXmppTransferJob> inJob;
+        QObject::connect(tmB, &QXmppTransferManager::fileReceived, &ctx, [&](QXmppTransferJob *j) {
+            inJob = j;
+            QObject::connect(j, &QXmppTransferJob::finished, &ctx, [&, j] {
+                inFinished = true;
+                inError = (int)j->error();
+                tr.log(QStringLiteral("receiver job finished with error %1").arg(inError));
+            });
+            j->accept(&sink);
+        });
+        struct Relayed {
+            int dir;   // 0: A -> B, 1: B -> A, 2: proxy -> A
+            QByteArray xml;
+        };
+        QList<Relayed> inTransit;
+        QString fullA, fullB;
+        QString sidSeen;
+        bool activated = false;
+        auto hook = [&](int dir) {
+            return [&, dir](ServerConn &c, const QDomElement &el, const QByteArray &raw) {
+                const QString to = el.attribute(QStringLiteral("to"));
+                if (dir == 0 && to == QLatin1String(kProxy)) {
+                    // the proxy's XMPP side: address query and activation
+                    const QDomElement q = el.firstChildElement(QStringLiteral("query"));
+                    const QByteArray id = el.attribute(QStringLiteral("id")).toUtf8();
+                    const QByteArray head = "<iq from='" + QByteArray(kProxy) + "' to='" + c.fullJid.toUtf8() + "' id='" + id + "' ";
+                    if (el.attribute(QStringLiteral("type")) == QLatin1String("get")) {
+                        sidSeen = q.attribute(QStringLiteral("sid"));
+                        inTransit.append({ 2, head + "type='result'><query xmlns='http://jabber.org/protocol/bytestreams'><streamhost jid='" + QByteArray(kProxy) + "' host='10.9.8.1' port='7777'/></query></iq>" });
+                    } else if (!q.firstChildElement(QStringLiteral("activate")).isNull()) {
+                        if (fault == 7) {
+                            res.faults[QStringLiteral("proxy_refuses_activation")]++;
+                            inTransit.append({ 2, head + "type='error'><error type='cancel'><item-not-found xmlns='urn:ietf:params:xml:ns:xmpp-stanzas'/></error></iq>" });
+                        } else {
+                            activated = true;
+                            inTransit.append({ 2, head + "type='result'/>" });
+                        }
+                    }
+                    return true;
+                }
+                if (to == (dir == 0 ? fullB : fullA) && !to.isEmpty()) {
+                    QByteArray x = raw;
+                    const QByteArray stamp = " from='" + c.fullJid.toUtf8() + "'";
+                    const int sp = x.indexOf(' ');
+                    if (!x.contains(" from=") && sp > 0) {
+                        x.insert(sp, stamp);
+                    }
+                    inTransit.append({ dir, x });
+                    return true;
+                }
+                return false;
+            };
+        };
+        for (const auto &op : plan.ops) {
+            if (op.kind != QLatin1String("transfer")) {
+                wa.applyCommon(op);
+                wb.applyCommon(op);
+            }
+        }
+        if (!wa.client->isConnected() || !wb.client->isConnected()) {
+            res.probes[QStringLiteral("session_not_established")]++;
+            return;
+        }
+        fullA = wa.server->current()->fullJid;
+        fullB = wb.server->current()->fullJid;
+        wa.server->onSessionStanza = hook(0);
+        wb.server->onSessionStanza = hook(1);
+        QBuffer src;
+        src.setData(file);
+        src.open(QIODevice::ReadOnly);
+        QXmppTransferFileInfo info;
+        info.setName(QStringLiteral("f.bin"));
+        if (sizeAnnounced) {
+            info.setSize(file.size());
+        }
+        if (hashAnnounced) {
+            info.setHash(md5);
+        }
+        QXmppTransferJob *out = tmA->sendFile(fullB, &src, info);
+        QObject::connect(out, &QXmppTransferJob::finished, &ctx, [&] {
+            outFinished = true;
+            outError = (int)out->error();
+            tr.log(QStringLiteral("sender job finished with error %1").arg(outError));
+        });
+        // the proxy's TCP side
+        struct Side {
+            TcpConn *c = nullptr;
+            int step = 0;          // 0 greeting expected, 1 CONNECT expected, 2 established
+            QByteArray buf;        // handshake bytes received so far
+            QByteArray hostName;   // from CONNECT
+        };
+        QList<Side> sides;
+        struct Action {
+            TcpConn *c;
+            int kind;   // 0 accept, 1 refuse, 2 deliver, 3 close
+            QByteArray bytes;
+        };
+        QList<Action> actions;
+        QByteArray fromS;       // payload the sender's side has put on the wire
+        bool sClosed = false;   // the sender closed its connection
+        int toR = 0;            // bytes of the (transformed) stream handed to the receiver's connection so far
+        bool proxyDied = false, rClosedByProxy = false;
+        bool faultFired = false, dataFault = false;
+        Prng pr(mix64(plan.seed, 0x50c6));
+        auto sideOf = [&](TcpConn *c) -> Side * {
+            for (auto &s : sides) {
+                if (s.c == c) {
+                    return &s;
+                }
+            }
+            return nullptr;
+        };
+        auto isSenderConn = [&](TcpConn *c) {
+            auto *j = c->sock ? qobject_cast<QXmppTransferJob *>(c->sock->parent()) : nullptr;
+            return j && j->direction() == QXmppTransferJob::OutgoingDirection;
+        };
+        Side *S = nullptr, *R = nullptr;
+        auto refreshSides = [&] {
+            S = R = nullptr;
+            for (auto &s : sides) {
+                if (s.step == 2) {
+                    (isSenderConn(s.c) ? S : R) = &s;
+                }
+            }
+        };
+        int connects = 0;
+        tcp.onConnectRequested = [&](TcpConn *c) {
+            tr.log(QStringLiteral("tcp: connect requested to %1:%2 by the %3").arg(c->host).arg(c->port).arg(isSenderConn(c) ? QStringLiteral("sender") : QStringLiteral("receiver")));
+            ++connects;
+            if (c->host != QLatin1String("10.9.8.1") || c->port != 7777) {
+                res.violations.append(Violation { QStringLiteral("socks_protocol"), QStringLiteral("C19:connection_to_an_address_nobody_offered"), QStringLiteral("%1:%2").arg(c->host).arg(c->port), 0 });
+            }
+            if (fault == 6 && isSenderConn(c)) {
+                faultFired = true;
+                res.faults[QStringLiteral("proxy_refuses_the_senders_connection")]++;
+                actions.append({ c, 1, {} });
+                return;
+            }
+            Side s;
+            s.c = c;
+            sides.append(s);
+            actions.append({ c, 0, {} });
+        };
+        tcp.onWire = [&](TcpConn *c, const QByteArray &b) {
+            Side *s = sideOf(c);
+            if (!s) {
+                return;
+            }
+            if (s->step == 2) {
+                if (isSenderConn(c)) {
+                    fromS += b;
+                } else if (!b.isEmpty()) {
+                    res.violations.append(Violation { QStringLiteral("socks_protocol"), QStringLiteral("C19:receiver_writes_into_the_bytestream"), QString::fromLatin1(b.left(16).toHex()), 0 });
+                }
+                return;
+            }
+            s->buf += b;
+            if (s->step == 0 && s->buf.size() >= 3) {
+                if (s->buf.left(3) != QByteArray("\x05\x01\x00", 3)) {
+                    res.violations.append(Violation { QStringLiteral("socks_protocol"), QStringLiteral("C19:socks5_greeting_malformed"), QString::fromLatin1(s->buf.toHex()), 0 });
+                }
+                s->buf.remove(0, 3);
+                s->step = 1;
+                actions.append({ c, 2, QByteArray("\x05\x00", 2) });
+            }
+            if (s->step == 1 && s->buf.size() >= 5 && s->buf.size() >= 7 + (uchar)s->buf[4]) {
+                const int n = (uchar)s->buf[4];
+                s->hostName = s->buf.mid(5, n);
+                const QByteArray want = QByteArray("\x05\x01\x00\x03", 4) + (char)n + s->hostName + QByteArray(2, '\0');
+                if (s->buf.left(7 + n) != want) {
+                    res.violations.append(Violation { QStringLiteral("socks_protocol"), QStringLiteral("C19:socks5_connect_request_not_as_specified"), QString::fromLatin1(s->buf.toHex()), 0 });
+                }
+                const QByteArray expect = simcrypto::hash("SHA1", sidSeen.toUtf8() + fullA.toUtf8() + fullB.toUtf8()).toHex();
+                if (s->hostName != expect) {
+                    res.violations.append(Violation { QStringLiteral("socks_protocol"), QStringLiteral("C19:socks5_host_name_is_not_sha1_of_sid_initiator_target:%1").arg(isSenderConn(c) ? QStringLiteral("sender") : QStringLiteral("receiver")),
+                                                      QStringLiteral("got %1, XEP-0065 prescribes %2").arg(QString::fromLatin1(s->hostName), QString::fromLatin1(expect)), 0 });
+                }
+                s->buf.remove(0, 7 + n);
+                s->step = 2;
+                actions.append({ c, 2, QByteArray("\x05\x00\x00\x03", 4) + (char)n + s->hostName + QByteArray(2, '\0') });
+                if (!s->buf.isEmpty() && isSenderConn(c)) {
+                    fromS += s->buf;
+                }
+            }
+        };
+        tcp.onLocalClose = [&](TcpConn *c) {
+            tr.log(QStringLiteral("tcp: %1 closed its connection").arg(isSenderConn(c) ? QStringLiteral("sender") : QStringLiteral("receiver")));
+            if (isSenderConn(c)) {
+                sClosed = true;
+            }
+        };
+        // the byte stream the proxy hands on: the sender's bytes with the fault applied at byte offset `off`
+        const int span = std::max(1, std::min(chunk, std::max(1, file.size() / 2)));
+        const int off = file.isEmpty() ? 0 : (int)((qint64)faultAt * 977 % file.size());
+        auto transformed = [&](bool final) -> QByteArray {
+            QByteArray t = fromS;
+            const bool reach = fromS.size() >= off + 2 * span || final;
+            if (fault >= 1 && fault <= 4 && fromS.size() > off && !reach) {
+                return t.left(off);   // hold back until the affected region is complete
+            }
+            if (fromS.size() <= off) {
+                if (fault == 11 && final) {
+                    dataFault = true;
+                    return t + Prng(mix64(plan.seed, 11)).bytes(1 + (int)(plan.seed % 40));
+                }
+                return t;
+            }
+            switch (fault) {
+            case 1:
+                t.remove(off, span);
+                dataFault = true;
+                break;
+            case 2:
+                t.insert(off, fromS.mid(off, span));
+                dataFault = true;
+                break;
+            case 3: {
+                const QByteArray a = fromS.mid(off, span), b = fromS.mid(off + span, span);
+                if (!b.isEmpty() && a != b) {
+                    t = fromS.left(off) + b + a + fromS.mid(off + a.size() + b.size());
+                    dataFault = true;
+                }
+                break;
+            }
+            case 4:
+                t[off] = t[off] ^ 0x20;
+                dataFault = true;
+                break;
+            case 5:
+                t = t.left(off);
+                break;
+            case 11:
+                if (final) {
+                    dataFault = true;
+                    t += Prng(mix64(plan.seed, 11)).bytes(1 + (int)(plan.seed % 40));
+                }
+                break;
+            default: break;
+            }
+            return t;
+        };
+        int steps = 0;
+        for (int guard = 0; guard < 20000; ++guard) {
+            wa.pump(nullptr);
+            wb.pump(nullptr);
+            settle();
+            refreshSides();
+            // fault 5: the proxy dies once `off` bytes have passed
+            if (fault == 5 && !proxyDied && S && R && fromS.size() > off && toR >= off) {
+                proxyDied = true;
+                faultFired = dataFault = true;
+                res.faults[QStringLiteral("proxy_dies_mid_stream")]++;
+                actions.append({ R->c, 3, {} });
+                actions.append({ S->c, 3, {} });
+                rClosedByProxy = true;
+            }
+            // hand bytes on to the receiver
+            if (S && R && activated && !proxyDied && !rClosedByProxy) {
+                const QByteArray t = transformed(sClosed);
+                if (t.size() > toR) {
+                    const int n = (int)pr.range(1, std::max(1, std::min(t.size() - toR, 3 * chunk)));
+                    actions.append({ R->c, 2, t.mid(toR, n) });
+                    toR += n;
+                } else if (sClosed && actions.isEmpty()) {
+                    actions.append({ R->c, 3, {} });
+                    rClosedByProxy = true;
+                }
+            }
+            // a sender that could not reach the proxy (or was refused activation) never streams: the proxy drops the receiver's idle connection
+            if ((fault == 6 || fault == 7) && outFinished && R && !rClosedByProxy && actions.isEmpty()) {
+                actions.append({ R->c, 3, {} });
+                rClosedByProxy = true;
+            }
+            QVector<int> enabled;   // 0 relay a stanza, 1 proxy action, 2.. drain connection k-2
+            if (!inTransit.isEmpty()) {
+                enabled << 0;
+            }
+            if (!actions.isEmpty()) {
+                enabled << 1;
+            }
+            for (int i = 0; i < tcp.conns.size(); ++i) {
+                if (!tcp.conns[i]->outbox.isEmpty() && tcp.conns[i]->up) {
+                    enabled << 2 + i;
+                }
+            }
+            if (enabled.isEmpty()) {
+                if (inFinished && outFinished) {
+                    break;
+                }
+                const bool a = wa.fireNextTimer(20000), b = a ? false : wb.fireNextTimer(20000);
+                if (!a && !b) {
+                    break;
+                }
+                continue;
+            }
+            ++steps;
+            const int pickd = enabled[(int)pr.uniform((quint64)enabled.size())];
+            if (pickd == 0) {
+                const Relayed r = inTransit.takeFirst();
+                if (auto *c = (r.dir == 0 ? wb : wa).server->current()) {
+                    c->sendStanza(r.xml);
+                }
+            } else if (pickd == 1) {
+                const Action a = actions.takeFirst();
+                switch (a.kind) {
+                case 0: tcp.resolveConnect(a.c, true); break;
+                case 1: tcp.resolveConnect(a.c, false); break;
+                case 2: tcp.deliver(a.c, a.bytes); break;
+                default: tcp.remoteClose(a.c);
+                }
+            } else {
+                TcpConn *c = tcp.conns[pickd - 2];
+                tcp.drain(c, (int)pr.range(1, std::max(1, std::min(c->outbox.size(), 4 * chunk + 8))));
+            }
+        }
+        wa.pump(nullptr);
+        wb.pump(nullptr);
+        settle();
+        if (inJob && inFinished && inJob->error() == QXmppTransferJob::NoError) {
+            inError = (int)QXmppTransferJob::NoError;
+        }
+        if (fault == 9 || fault == 10) {
+            faultFired = dataFault = !file.isEmpty();
+            res.faults[fault == 9 ? QStringLiteral("device_write_error") : QStringLiteral("device_short_write")]++;
+        }
+        if (dataFault) {
+            faultFired = true;
+            static const char *names[] = { "", "proxy_loses_bytes", "proxy_repeats_bytes", "proxy_swaps_bytes", "proxy_flips_bit", "proxy_dies_mid_stream", "", "", "", "", "", "proxy_appends_bytes" };
+            if (fault >= 1 && fault <= 4) {
+                res.faults[QString::fromLatin1(names[fault])]++;
+            } else if (fault == 11) {
+                res.faults[QString::fromLatin1(names[11])]++;
+            }
+        }
+        if (fault == 7) {
+            faultFired = true;
+        }
+        const bool exact = sink.data == file;
+        tr.log(QStringLiteral("socks5 via proxy: sender finished=%1 error=%2 wrote %3, receiver finished=%4 error=%5 got %6/%7 exact=%8 (fault %9)")
+                   .arg(outFinished).arg(outError).arg(fromS.size()).arg(inFinished).arg(inError).arg(sink.data.size()).arg(file.size()).arg(exact).arg(fault));
+        // a stream that ends without a byte after the sender never got through is, with nothing announced, an empty file for the receiver
+        const bool undetectable = announce == 3 && (fault == 6 || fault == 7);
+        if (inFinished && inError == QXmppTransferJob::NoError && !exact && !undetectable) {
+            res.violations.append(Violation { QStringLiteral("success_with_wrong_bytes"), QStringLiteral("C19:receiver_reports_success_but_copy_differs:socks5_proxy:fault%1:%2").arg(fault).arg(QLatin1String(announceNames[announce & 3])),
+                                              QStringLiteral("SOCKS5 through a proxy, two real clients: the receiver finished with NoError but holds %1 bytes that differ from the %2 bytes sent (fault %3 at offset %4, span %5, announced: %6)").arg(sink.data.size()).arg(file.size()).arg(fault).arg(off).arg(span).arg(QLatin1String(announceNames[announce & 3])), 0 });
+        }
+        if (outFinished && outError == QXmppTransferJob::NoError && fromS != file) {
+            res.violations.append(Violation { QStringLiteral("success_with_wrong_bytes"), QStringLiteral("C19:sender_reports_success_without_having_sent_the_file:socks5_proxy:fault%1:%2").arg(fault).arg(QLatin1String(announceNames[announce & 3])),
+                                              QStringLiteral("SOCKS5 through a proxy: the sender finished with NoError but put %1 bytes on its connection that differ from the %2 bytes of the file (fault %3)").arg(fromS.size()).arg(file.size()).arg(fault), 0 });
+        }
+        if (!faultFired && (!inFinished || !outFinished || inError != QXmppTransferJob::NoError || outError != QXmppTransferJob::NoError || !exact)) {
+            res.violations.append(Violation { QStringLiteral("fault_free_transfer_failed"), QStringLiteral("C19:fault_free_socks5_transfer_through_proxy_did_not_succeed"),
+                                              QStringLiteral("no fault was injected, yet sender finished=%1 error=%2, receiver finished=%3 error=%4, %5/%6 bytes, exact=%7").arg(outFinished).arg(outError).arg(inFinished).arg(inError).arg(sink.data.size()).arg(file.size()).arg(exact), 0 });
+        }
+        for (const auto &v : std::as_const(res.violations)) {
+            tr.log(QStringLiteral("VIOLATION ") + v.signature);
+        }
+        res.nontrivial = faultFired || file.size() > chunk;
+        res.steps = steps + 3;
+        res.caseKey = QStringLiteral("t4|%1|%2|%3|%4|%5").arg(chunk).arg(file.size()).arg(announce).arg(fault).arg(faultAt % 7);
+        tcp.onWire = nullptr;
+        tcp.onConnectRequested = nullptr;
+        tcp.onLocalClose = nullptr;
+        wa.client->disconnectFromServer();
+        wb.client->disconnectFromServer();
+        wa.pump(nullptr);
+        wb.pump(nullptr);
+        delete wa.client;
+        wa.client = nullptr;
+        delete wb.client;
+        wb.client = nullptr;
+        settle();
     }
 
     bool removable(const Plan &, int) override { return false; }
